@@ -148,7 +148,8 @@ def applyOp (cfg : Cfg) (k : Hist.Keys) (removedBefore : List String) (d : DSt) 
       let d' : DSt := { d with st := st', live := d.live.filter (fun (x : Inst) => x.name != n) }
       -- calls in flight through all five entry points must have ended when Remove has returned (C16)
       let inflight := match d.live.find? (fun (x : Inst) => x.name == n) with
-        | some inst => inst.refl
+        | some inst => inst.refl && inst.contract.any (fun s => s.name.startsWith "stk.z." &&
+            s.methods.any (·.name == "Hold") && s.methods.any (·.name == "HoldB"))   -- a bare sentinel offers nothing to hold
         | none => false
       (d'.tag "b=remove", if inflight then "true~px:E;gw:E;gs:E;ht:E;ws:E" else "true")
     else (d.tag "b=remove-absent", "false")
@@ -213,7 +214,8 @@ def uncovered (l : Line) : Option String :=
     else if m.bindings.isEmpty then
       if hit "POST" (rpcNameOf s.name m.name) hp then none else some s!"H default {rpcNameOf s.name m.name}"
     else m.bindings.findSome? fun b =>
-      if !hit b.hm b.pattern hp then some s!"H {b.hm} {b.pattern}"
+      if !validStack (ascii b.pattern) then none     -- an unparseable template never becomes a route: nothing to cover
+      else if !hit b.hm b.pattern hp then some s!"H {b.hm} {b.pattern}"
       else if b.hm == "GET" && m.kind != "u" && !hit "GET" b.pattern wp then some s!"W {b.pattern}"
       else none
 
